@@ -217,6 +217,35 @@ pub fn many<const N: usize>(fragmented: bool) {
     end_ledger();
 }
 
+/// C01/C13/C18 (receiving side): any VALID plan must be reassembled — in particular follow-ups
+/// that are SHORTER than the receiver's read window, which is what the sender emits after an
+/// ENOBUFS made it shrink its fragment size (send_plan_*_enobufs: every follow-up is non-empty,
+/// at most min(window, remaining), and they tile the message).  `cuts` are the packet boundaries.
+fn short_followups<const L: usize, const N: usize>(cuts: [usize; N], use_try: bool) {
+    setup(64);
+    env::set_block_is_violation(true);
+    let (s_fd, r_fd) = raw_pair();
+    let rx = rx_from_fd(r_fd);
+    let ded = raw_pair();
+    let data: [u8; L] = kani::any();
+    assert!(inject(s_fd, Some(L), &data[..cuts[0]], &[ded.1]) > 0);
+    let mut k = 0;
+    while k + 1 < N {
+        assert!(inject(ded.0, None, &data[cuts[k]..cuts[k + 1]], &[]) > 0);
+        k += 1;
+    }
+    raw_close(ded.0);
+    raw_close(ded.1);
+    let (got, ch, sh) = if use_try { rx.try_recv().unwrap() } else { rx.recv().unwrap() };
+    assert!(got.len() == L, "C01: reassembled length");
+    let i = any_usize_in(0, L - 1);
+    assert!(got[i] == data[i], "C01/C18: reassembled byte differs (or was never written)");
+    assert!(ch.is_empty() && sh.is_empty());
+    drop((got, ch, sh, rx));
+    raw_close(s_fd);
+    end_ledger();
+}
+
 /// C09 (b)(c)(d): the receiving end of T travels inside a message queued on C.
 /// sc: 0 = still in transit, 1 = C's receiver dropped with the message queued, 2 = unpacked first
 fn transit<const L: usize>(sc: u8) {
@@ -263,6 +292,12 @@ fn transit<const L: usize>(sc: u8) {
 }
 
 harnesses! {
+    // first fragment shrunk (16 < 24), follow-ups of 10, 20, 11 bytes (window 32)
+    #[unwind(8)] fn recv_short_57_a() { short_followups::<57, 4>([16, 26, 46, 57], false) }
+    // full first fragment, then 1-byte, full-window and short tail packets
+    #[unwind(8)] fn recv_short_89_b() { short_followups::<89, 5>([24, 25, 57, 80, 89], true) }
+    // two packets, the follow-up one byte shorter than the window would allow
+    #[unwind(8)] fn recv_short_60_c() { short_followups::<60, 3>([24, 55, 60], false) }
     #[unwind(6)] fn transit_queued_small() { transit::<3>(0) }
     #[unwind(6)] fn transit_queued_multi() { transit::<57>(0) }
     #[unwind(6)] fn transit_carrier_dropped_small() { transit::<3>(1) }
